@@ -3,6 +3,7 @@
   (C12): sizes, designated cells for checked and unchecked access, never a panic.
 -/
 import EasyMl.Lemmas.FallibleMatrix
+import EasyMl.Lemmas.PartitionGrid
 import EasyMl.Spec.MatrixView
 
 namespace EasyMl.MatrixView
@@ -17,10 +18,27 @@ theorem MExpr.cell_none (e : MExpr) (i j : Nat) (h : ¬ (i < e.size.1 ∧ j < e.
   induction e generalizing i j with
   | leaf rows columns => simp only [MExpr.size] at h; simp [MExpr.cell, h]
   | leafCM rows columns => simp only [MExpr.size] at h; simp [MExpr.cell, h]
+  | part rows columns rp cp kr kc => simp only [MExpr.cell]; rw [if_neg h]
   | range e rows columns ih => simp only [MExpr.cell]; rw [if_neg h]
   | reverse e fr fc ih => simp only [MExpr.size] at h; simp only [MExpr.cell]; rw [if_neg h]
   | map e ih => simp only [MExpr.size] at h; simp only [MExpr.cell]; exact ih i j h
   | viaTensor e ih => simp only [MExpr.size] at h; simp only [MExpr.cell]; exact ih i j h
+
+/-- no slice is longer than the largest boundary -/
+theorem diffs_getD_le (bounds : List Nat) (prev C k : Nat) (hC : ∀ b ∈ bounds, b ≤ C) :
+    ((diffs bounds prev).getD k (0, 0)).2 ≤ C := by
+  induction bounds generalizing prev k with
+  | nil => simp [diffs]
+  | cons b bs ih =>
+    have hb : b ≤ C := hC b (by simp)
+    cases k with
+    | zero => simp only [diffs, List.getD_cons_zero]; omega
+    | succ k =>
+      simp only [diffs, List.getD_cons_succ]
+      exact ih b k (fun x hx => hC x (by simp [hx]))
+
+theorem normSize_le (rl cl : Nat) : (normSize rl cl).1 ≤ rl ∧ (normSize rl cl).2 ≤ cl := by
+  simp only [normSize]; split <;> simp
 
 theorem MExpr.size_le (e : MExpr) (h : e.LeavesOk) : e.size.1 ≤ usizeMax ∧ e.size.2 ≤ usizeMax := by
   induction e with
@@ -44,6 +62,30 @@ theorem MExpr.size_le (e : MExpr) (h : e.LeavesOk) : e.size.1 ≤ usizeMax ∧ e
     · calc columns = 1 * columns := by simp
         _ ≤ rows * columns := Nat.mul_le_mul_right _ hr
         _ ≤ usizeMax := hb
+  | part rows columns rp cp kr kc =>
+    obtain ⟨⟨hr, hc, hb⟩, ⟨ha1, ha2, _, _, _⟩, _, _⟩ := h
+    have hR : rows ≤ usizeMax := by
+      calc rows = rows * 1 := by simp
+        _ ≤ rows * columns := Nat.mul_le_mul_left _ hc
+        _ ≤ usizeMax := hb
+    have hC : columns ≤ usizeMax := by
+      calc columns = 1 * columns := by simp
+        _ ≤ rows * columns := Nat.mul_le_mul_right _ hr
+        _ ≤ usizeMax := hb
+    have h1 := diffs_getD_le (rp ++ [rows]) 0 rows kr (by
+      intro b hb'; simp only [List.mem_append, List.mem_singleton] at hb'
+      rcases hb' with hb' | rfl
+      · exact axisChecked_le ha1 b hb'
+      · exact Nat.le_refl _)
+    have h2 := diffs_getD_le (cp ++ [columns]) 0 columns kc (by
+      intro b hb'; simp only [List.mem_append, List.mem_singleton] at hb'
+      rcases hb' with hb' | rfl
+      · exact axisChecked_le ha2 b hb'
+      · exact Nat.le_refl _)
+    have h3 := normSize_le (partRect rows columns rp cp kr kc).1.2 (partRect rows columns rp cp kr kc).2.2
+    simp only [MExpr.size]
+    simp only [partRect] at h3 ⊢
+    omega
   | range e rows columns ih =>
     have := ih h
     simp only [MExpr.size]
@@ -58,6 +100,7 @@ theorem MExpr.cell_some (e : MExpr) (i j : Nat) (h : i < e.size.1 ∧ j < e.size
   induction e generalizing i j with
   | leaf rows columns => simp only [MExpr.size] at h; simp [MExpr.cell, h]
   | leafCM rows columns => simp only [MExpr.size] at h; simp [MExpr.cell, h]
+  | part rows columns rp cp kr kc => simp only [MExpr.cell]; rw [if_pos h]; rfl
   | range e rows columns ih =>
     simp only [MExpr.cell]; rw [if_pos h]
     simp only [MExpr.size] at h
@@ -132,6 +175,97 @@ theorem leafCM_refines (rows columns : Nat) (hr : 1 ≤ rows) (hc : 1 ≤ column
       obtain ⟨h1, h2, h3⟩ := key i j h.1 h.2
       simp [cmUget, cmul_ok h1, cadd_ok h2, h3]
     · simp at ho
+
+/-- the parts come in row-major grid order: position `a * |l2| + b` of the grid is the part of
+    the `a`-th row slice and the `b`-th column slice -/
+theorem getElem?_flatMap_map {α β γ : Type} (l1 : List α) (l2 : List β) (f : α → β → γ) (a b : Nat)
+    (ha : a < l1.length) (hb : b < l2.length) :
+    (l1.flatMap fun x => l2.map (f x))[a * l2.length + b]? = some (f l1[a] l2[b]) := by
+  induction l1 generalizing a with
+  | nil => simp at ha
+  | cons x xs ih =>
+    rw [List.flatMap_cons]
+    cases a with
+    | zero =>
+      rw [List.getElem?_append_left (by simpa using hb)]
+      simp [hb]
+    | succ a =>
+      have hidx : (a + 1) * l2.length + b = (l2.map (f x)).length + (a * l2.length + b) := by
+        rw [List.length_map, Nat.add_mul]; omega
+      rw [hidx, List.getElem?_append_right (Nat.le_add_right _ _), Nat.add_sub_cancel_left]
+      simp only [List.length_cons] at ha
+      rw [ih a (by omega)]
+      simp
+
+/-- the unchecked getter of a part reaches the designated cell -/
+theorem ofSlices_uget (C rs rl cs cl i j : Nat) (hi : i < (normSize rl cl).1)
+    (hj : j < (normSize rl cl).2) :
+    (MatrixPart.ofSlices (partSlices C rs rl cs cl)).uget i j = .ok ((rs + i) * C + cs + j) := by
+  have hirl : i < rl := by
+    simp only [normSize] at hi; split at hi <;> simp at hi <;> omega
+  have hjcl : j < cl := by
+    simp only [normSize] at hj; split at hj <;> simp at hj <;> omega
+  have h1 : i < (partSlices C rs rl cs cl).length := by rw [partSlices_length]; exact hirl
+  have h2 : (partSlices C rs rl cs cl)[i]? = some (List.range' ((rs + i) * C + cs) cl) := by
+    rw [List.getElem?_eq_getElem h1]; simp [partSlices]
+  have h3 : (List.range' ((rs + i) * C + cs) cl)[j]? = some ((rs + i) * C + cs + j) := by
+    rw [List.getElem?_eq_getElem (by simpa using hjcl)]; simp [List.getElem_range']
+  simp only [MatrixPart.uget, ofSlices_data, h2, h3]
+
+theorem part_refines (rows columns : Nat) (rp cp : List Nat) (kr kc : Nat)
+    (hle : (MExpr.part rows columns rp cp kr kc).LeavesOk) :
+    ∃ v, (MExpr.part rows columns rp cp kr kc).eval Arith.fixed = .ok (.ok v) ∧
+      Refines (.part rows columns rp cp kr kc) v := by
+  obtain ⟨⟨hr, hc, hb⟩, ⟨ha1, ha2, ha3, ha4, ha5⟩, hkr, hkc⟩ := hle
+  have hinv : MatrixMeta.Inv ⟨rows * columns, rows, columns⟩ := ⟨rfl, hr, hc, hb⟩
+  have hpart : partition ⟨rows * columns, rows, columns⟩ rp cp =
+      .ok (gridSpec ⟨rows * columns, rows, columns⟩ rp cp) := by
+    rw [partition_eq_spec _ hinv]
+    simp [partitionSpec, ha1, ha2, ha3, ha4, ha5]
+  have hlr : kr < (diffs (rp ++ [rows]) 0).length := by rw [diffs_length]; simp; omega
+  have hlc : kc < (diffs (cp ++ [columns]) 0).length := by rw [diffs_length]; simp; omega
+  have hnc : (diffs (cp ++ [columns]) 0).length = cp.length + 1 := by rw [diffs_length]; simp
+  have hgrid : gridSpec ⟨rows * columns, rows, columns⟩ rp cp =
+      (diffs (rp ++ [rows]) 0).flatMap fun r => (diffs (cp ++ [columns]) 0).map fun c =>
+        MatrixPart.ofSlices (partSlices columns r.1 r.2 c.1 c.2) := rfl
+  have hget := getElem?_flatMap_map (diffs (rp ++ [rows]) 0) (diffs (cp ++ [columns]) 0)
+    (fun r c => MatrixPart.ofSlices (partSlices columns r.1 r.2 c.1 c.2)) kr kc hlr hlc
+  rw [hnc] at hget
+  have hrd : (partRect rows columns rp cp kr kc).1 = (diffs (rp ++ [rows]) 0)[kr] := by
+    simp only [partRect, List.getD_eq_getElem?_getD, List.getElem?_eq_getElem hlr, Option.getD_some]
+  have hcd : (partRect rows columns rp cp kr kc).2 = (diffs (cp ++ [columns]) 0)[kc] := by
+    simp only [partRect, List.getD_eq_getElem?_getD, List.getElem?_eq_getElem hlc, Option.getD_some]
+  have hidx : idxC (gridSpec ⟨rows * columns, rows, columns⟩ rp cp) (kr * (cp.length + 1) + kc) =
+      .ok (MatrixPart.ofSlices (partSlices columns (partRect rows columns rp cp kr kc).1.1
+        (partRect rows columns rp cp kr kc).1.2 (partRect rows columns rp cp kr kc).2.1
+        (partRect rows columns rp cp kr kc).2.2)) := by
+    rw [hrd, hcd, hgrid]
+    simp only [idxC, hget]
+  have hev : (MExpr.part rows columns rp cp kr kc).eval Arith.fixed =
+      .ok (.ok ⟨MView.ofPart (MatrixPart.ofSlices (partSlices columns
+          (partRect rows columns rp cp kr kc).1.1 (partRect rows columns rp cp kr kc).1.2
+          (partRect rows columns rp cp kr kc).2.1 (partRect rows columns rp cp kr kc).2.2)),
+        (MatrixPart.ofSlices (partSlices columns
+          (partRect rows columns rp cp kr kc).1.1 (partRect rows columns rp cp kr kc).1.2
+          (partRect rows columns rp cp kr kc).2.1 (partRect rows columns rp cp kr kc).2.2)).uget⟩) := by
+    simp only [MExpr.eval, hpart, hidx]
+  refine ⟨_, hev, ?_⟩
+  have hsz := ofSlices_size columns (partRect rows columns rp cp kr kc).1.1
+    (partRect rows columns rp cp kr kc).1.2 (partRect rows columns rp cp kr kc).2.1
+    (partRect rows columns rp cp kr kc).2.2
+  simp only [Prod.ext_iff] at hsz
+  refine ⟨hsz.1, hsz.2, ?_, ?_⟩
+  · intro i j
+    simp only [MView.ofPart, ofSlices_get, MExpr.cell, MExpr.size] <;> rfl
+  · intro i j o ho
+    simp only [MExpr.cell] at ho
+    by_cases h : i < (MExpr.part rows columns rp cp kr kc).size.1 ∧
+        j < (MExpr.part rows columns rp cp kr kc).size.2
+    · rw [if_pos h] at ho
+      simp only [Option.some.injEq] at ho
+      subst ho
+      exact ofSlices_uget _ _ _ _ _ i j h.1 h.2
+    · rw [if_neg h] at ho; simp at ho
 
 theorem range_refines (e : MExpr) (src : MViewU) (hsrc : Refines e src) (hle : e.LeavesOk)
     (rows columns : IndexRange) :
@@ -274,6 +408,9 @@ theorem eval_refines (e : MExpr) (hle : e.LeavesOk) :
     obtain ⟨hr, hc, hb⟩ := hle
     simp only [MExpr.Buildable, if_true]
     exact ⟨_, rfl, leafCM_refines rows columns hr hc hb⟩
+  | part rows columns rp cp kr kc =>
+    simp only [MExpr.Buildable, if_true]
+    exact part_refines rows columns rp cp kr kc hle
   | range e rows columns ih =>
     have ih := ih hle
     have hB : (MExpr.range e rows columns).Buildable = e.Buildable := rfl
